@@ -9,6 +9,7 @@ import Tea.Render.Fps
 import Tea.Runtime.Pipeline
 import Tea.Runtime.Lifecycle
 import Tea.Driver.LTrace
+import Tea.Driver.STrace
 
 open Tea Tea.Driver Tea.Input
 
@@ -64,10 +65,24 @@ def stepReader (line : String) : String :=
       | .error e => s!"panic {e.toString}"
   | none => "bad-op"
 
+/-- `Q tok...` = Sequentially; tok = `n` | `z<k>` (result nil) | `<k>` -/
+def stepSequentially (toks : List String) : String :=
+  let parse (t : String) : Option (Option (Nat × Bool)) :=
+    if t == "n" then some none
+    else if t.startsWith "z" then (t.drop 1).toNat?.map (fun k => some (k, false))
+    else t.toNat?.map (fun k => some (k, true))
+  match toks.mapM parse with
+  | none => "bad-op"
+  | some cs =>
+    let r := Tea.Runtime.sequentiallyFn cs
+    let res := match r.1 with | none => "nil" | some k => toString k
+    " ".intercalate (["res", res, "ran"] ++ r.2.map toString)
+
 /-- `cmdfns`: `B tok...` = Batch, `S tok...` = Sequence on identifiable commands (`n` = nil):
 what comes back (Tea.Runtime.batchFn; a sequence message carries the list as it is) -/
 def stepCmdFns (line : String) : String :=
   match words line with
+  | "Q" :: toks => stepSequentially toks
   | kind :: toks =>
     let parse (t : String) : Option (Option Nat) := if t == "n" then some none else t.toNat?.map some
     match toks.mapM parse with
@@ -439,4 +454,5 @@ def main (args : List String) : IO UInt32 := do
   | ["ptrace"] => loop stdin stdout PTrace.run; return 0
   | ["life"] => loop stdin stdout LifeStream.run; return 0
   | ["ltrace"] => loop stdin stdout Tea.Driver.LTrace.run; return 0
+  | ["strace"] => loop stdin stdout Tea.Driver.STrace.run; return 0
   | _ => IO.eprintln "usage: driver <stream>"; return 2
